@@ -13,14 +13,14 @@ TABLE = {
         "text": "Lock discipline the mutual-exclusion argument rests on: the lock_tty wrapper takes the module-global _tty_lock twice around the call, "
                 "every terminal I/O primitive on _tty_fd sits in a lock_tty-decorated function, the lock is rebound only by the two Process wrappers "
                 "(under the old lock, to a re-entrant process-shared lock), the child always receives it, and the urwid screen's I/O overrides are decorated. "
-                "A statement over all call sites, not over schedules.",
+                "A statement over all call sites, not over schedules. Terminal locks are taken by `with` only (no explicit acquire/release, no fork hooks); no_redecorate marks the decorator's result.",
         "note": _NOTE + " Mutual exclusion under every interleaving and the Process.start race are NOT decided (schedule exploration is a different technique family).",
         "technique": "who-may-call / who-may-write rules over resolved decorators and globals, definite-assignment on the CFG of the Process wrappers",
     },
     "C15": {
         "text": "Invalidation obligations: every writer of a setting the cell-size cache depends on resets the cache under its lock on all normal paths; every "
                 "query-derived memo (decorator-based or hand-rolled, found through the call graph to query_terminal) is invalidated by enable_queries(); memo "
-                "decorators do lookup+call+store under one RLock; get_cell_size stores under the key it compared on every computing path; FIXED snapshots, DYNAMIC recomputes. Each value stored by terminal_size_cached carries its own terminal-size stamp; the key of utils.cached identifies the call.",
+                "decorators do lookup+call+store under one RLock; get_cell_size stores under the key it compared on every computing path; FIXED snapshots, DYNAMIC recomputes. Each value stored by terminal_size_cached carries its own terminal-size stamp; the key of utils.cached identifies the call. The stamp of terminal_size_cached is the library's get_terminal_size().",
         "note": _NOTE + " Values after a concrete resize history are runtime data and are not decided. Three recorded known findings (K5).",
         "technique": "must-pass-through on the CFG (toggle -> cache reset), call-graph reachability to query_terminal for memo discovery, lock-scope containment",
     },
@@ -36,7 +36,7 @@ TABLE = {
         "text": "Resolution instance -> class -> default is Python attribute lookup provided override cells are written correctly; the rules decide exactly that: "
                 "unset paths delete the receiver's own cell and never store (except the default-defining class), setters store only the receiver's cell after "
                 "validation on every accepted path, getters read through the instance/class, class-only settings have getter-only instance properties, the "
-                "native-animation limit has a single metaclass cell, and the two forms of set_render_method validate identically. While a descriptor tests the truth value of the instance, no image class defines __bool__/__len__.",
+                "native-animation limit has a single metaclass cell, and the two forms of set_render_method validate identically. While a descriptor tests the truth value of the instance, no image class defines __bool__/__len__. Settings are stored only by their own accessors and set_render_method.",
         "note": _NOTE + " Python's MRO attribute lookup is trusted; results for arbitrary subclass trees follow from it given R1-R6.",
         "technique": "who-may-write / delete-vs-store discipline on override cells, must-pass-through and validate-before-store on the CFG, sibling agreement",
     },
@@ -44,7 +44,7 @@ TABLE = {
         "text": "Crash points are covered by path rules, not enumerated: every HIDE_CURSOR write is inside a try whose finally shows the cursor under an implied "
                 "condition; every render-output write in a draw path is inside a try whose handlers certainly catch the required interruption classes and call the "
                 "style's interrupted-draw hook on all handler paths; graphics styles' hooks emit ST*2 (+ end-of-chunk) flushed; frame position, dynamic size, "
-                "iterator and render data are restored/closed in finally blocks covering every frame render; animations swallow Ctrl-C, still draws re-raise. The flush that delivers a frame lies inside the protected try of its write.",
+                "iterator and render data are restored/closed in finally blocks covering every frame render; animations swallow Ctrl-C, still draws re-raise. The flush that delivers a frame lies inside the protected try of its write. KITTY_END_CHUNKED is sent unconditionally by the hook.",
         "note": _NOTE + " Clean-up code is treated as atomic (the property stops at 'before its own clean-up starts'). Partial-write byte cuts and terminals' recovery after ST are device behaviour, not decided.",
         "technique": "pairing / lexical protection by try-finally, handler-class coverage (must-catch sets) of every write, wait and frame step, must-call on the handler CFG, class-hierarchy exhaustiveness, termios save/modify/restore discipline (shared with C13)",
     },
@@ -59,7 +59,7 @@ TABLE = {
         "text": "The laws behind the property as effects and agreements over all methods: no non-constructor method of the immutable classes stores to an existing "
                 "object or calls a mutator on a non-fresh container; shared default tables are only ever bound to MappingProxyType over freshly built mappings; the "
                 "interning conditions of __new__ and __init__ agree and both early returns dominate the single (re)initialisation; precedence is the order of three "
-                "writes with the compatibility test before each write; hash cells are a subset of eq cells; metaclass rejections precede class creation. __hash__ does not test identity; the render class of a set is never looked up in a namespace table; update/convert/to_render_args pass all inputs on unfiltered.",
+                "writes with the compatibility test before each write; hash cells are a subset of eq cells; metaclass rejections precede class creation. __hash__ does not test identity; the render class of a set is never looked up in a namespace table; update/convert/to_render_args pass all inputs on unfiltered. convert returns a set only where issubclass between the two render classes holds.",
         "note": _NOTE + " Outcomes for arbitrary class trees (metaclass execution) are not decided.",
         "technique": "effect/freshness analysis per method, who-may-bind tables, dominance by statement order, sibling-condition agreement, hash/eq cell-set inclusion",
     },
@@ -75,7 +75,7 @@ TABLE = {
         "text": "Per-operation invariants every history relies on: closed-guard first; validate-before-mutate (no raise reachable after a state store); settings read at "
                 "the point of use after the dummy yield (no local/parameter snapshots; first frame number read from frame_offset after the yield); the iterator uses only "
                 "four attributes of the renderable and writes none; sibling seek rules agree and every accepted seek is recorded on all non-raising paths; the padded size "
-                "is recomputed from the stored padding and current size; cached frames are stored unpadded. A validating RenderArgs(...) construction counts as validation (no store to self.* before it).",
+                "is recomputed from the stored padding and current size; cached frames are stored unpadded. A validating RenderArgs(...) construction counts as validation (no store to self.* before it). The public loop attribute is write-only inside the loops of _iterate.",
         "note": _NOTE + " The frame sequence / loop countdown for an arbitrary operation history is a state-machine question over runtime counters - not decided.",
         "technique": "dominance and reachability on the CFG (validate-before-mutate, must-record), reaching-definition / snapshot scan, who-may-use and who-may-write tables for every state cell, sibling agreement, finite-domain decision of the seek rejection predicate",
     },
@@ -90,7 +90,7 @@ TABLE = {
         "text": "Every control-sequence template of _ctlseqs.py is constant-folded from the syntax tree and parsed against an ECMA-48 template grammar (complete "
                 "CSI/OSC/APC/DCS, placeholders only in parameter/payload positions); no literal escapes elsewhere; OSC 1337 openers closed by ST; every operand of a raw "
                 "cursor/erase template proven >= 1 (size clamp or dominating guard); per renderer the newline-bearing fragments occur rendered_height-1 times in recognised "
-                "idioms, lines end with the style's cursor policy (kitty C=1 + CUF w; iterm2 doNotMoveCursor iff konsole advance; block SGR reset), chunked transmissions terminate.",
+                "idioms, lines end with the style's cursor policy (kitty C=1 + CUF w; iterm2 doNotMoveCursor iff konsole advance; block SGR reset), chunked transmissions terminate. Renderers keep no state on the instance or class between renders.",
         "note": _NOTE + " That the payload paints c x r cells, wrapping/scrolling and the konsole/iterm2 cursor-movement model are terminal behaviour - not decided.",
         "technique": "constant folding + grammar check of control-sequence templates, sign analysis of template operands, induction-variable polynomials for the block line loop, symbolic output-shape analysis of the renderers (regular-expression-like term of the emitted text; newline count as a polynomial, Glushkov follow sets, case split on the free conditions), who-may-write on the escape alphabet",
     },
@@ -98,7 +98,7 @@ TABLE = {
         "text": "Chunk protocol decided on the generator's look-ahead structure (or on recognised alternatives via polynomial comparison of position vs length); "
                 "mode/format and control-key provenance tables (s, v, c, r, z, f; strip length = width*cell_height*bpp); buffer typestate where size= is advertised "
                 "(seek/tell/seek/read; seek/save/truncate/tell per reused strip buffer); the read-from-file gate has exactly the documented conjuncts; the o=z flag is "
-                "set under state-only conditions because the ControlData is shared across strips.",
+                "set under state-only conditions because the ControlData is shared across strips. Renderers keep no state; the image object handed to a renderer is not modified in place where it can be the source.",
         "note": _NOTE + " Decoded payload == image pixels and strip stitching are runtime data (zlib/base64/PNG) - not decided.",
         "technique": "finite-state abstract interpretation of the chunking generator (read-offset values, nondeterministic end of payload, m-flag monitor; idiom rules as fallback), control-key provenance on traced expressions (backward value slices), image-command arguments read off the symbolic output shape, call-order typestate on buffers, guard-set comparison, must-order on the CFG",
     },
@@ -106,7 +106,7 @@ TABLE = {
         "text": "Request/stop-predicate/drain/parser agreement at every query_terminal call site (DA1 sentinel last; complete vs prefix predicate by reply alphabet; "
                 "prefix reads drained inside the same lock block; flush only before the request); request Ps <-> response Ps tables; response regexes' languages decided "
                 "exactly by DFA equality on constant-folded patterns; swap applies to every source of the text-area size; per-component colour scaling; fallbacks "
-                "(disabled -> None first, guarded responses, bounded reads); style preference table and support rules. The environment is only the fallback for a missing XTVERSION reply; the key of utils.cached identifies the call (args and kwargs.items()).",
+                "(disabled -> None first, guarded responses, bounded reads); style preference table and support rules. The environment is only the fallback for a missing XTVERSION reply; the key of utils.cached identifies the call (args and kwargs.items()). The elapsed time is recomputed on every way round the timed read loop.",
         "note": _NOTE + " Reply timing, select behaviour and byte-stream splits are schedules over a device - not decided.",
         "technique": "sibling call-site agreement, constant folding + regular-language equality of response patterns, traced condition sets of the support decisions decided on finite abstract domains, CFG dominance (swap covers all sources), def-use of the colour scale",
     },
@@ -114,7 +114,7 @@ TABLE = {
         "text": "The structural core of the run-length state machine: the run-boundary predicate is canonicalised (chained comparisons -> relation sets) and must be "
                 "invariant under the upper<->lower renaming and contain the 2 colour tests + 4 alpha-transition tests; every loop-carried variable read by the flush "
                 "closure is updated after a flush; the emission branches are mirror images; the kitty workaround tests the cluster it nudges; alpha classification "
-                "(round_alpha, strict <, compositing under state-only conditions). The source image is read-only (no in-place edit of img.info / palette where img can be the caller's object).",
+                "(round_alpha, strict <, compositing under state-only conditions). The source image is read-only (no in-place edit of img.info / palette where img can be the caller's object). Renderers keep no state; the image is not modified in place where it can be the source; resize(size, BOX) in one step.",
         "note": _NOTE + " Every actual colour / alpha value (PIL resampling, compositing) is runtime data - not decided.",
         "technique": "decision of the run-boundary predicate against its specification over a finite abstract domain (648 valuations), emission truth table of update_buffer from its symbolic output shape, loop-carried state completeness, must-order on the CFG (convert before resize, seek iff animated), guard-set analysis, memo safety",
     },
@@ -129,7 +129,7 @@ TABLE = {
         "text": "The cursor bookkeeping is arithmetic over symbols, decided as an affine computation: each write in the animation drivers is mapped to a row displacement "
                 "polynomial (frame of h lines: h-1; newline: 1; cursor_up(e): -e; ...); obligations: loop iteration row-neutral, after the first frame at the top of the "
                 "render region, on normal completion on the last line of the padded region (then exactly one newline). Plus operand signs, validate-before-write with the "
-                "documented width/height/scroll predicate, complementary version predicates for per-frame clearing. The size predicate of _init_render_ and kitty's clear/blend predicates are decided by evaluation on finite domains (tuples ordered lexicographically, as Python does).",
+                "documented width/height/scroll predicate, complementary version predicates for per-frame clearing. The size predicate of _init_render_ and kitty's clear/blend predicates are decided by evaluation on finite domains (tuples ordered lexicographically, as Python does). The writes of the frame loop are unconditional.",
         "note": _NOTE + " What a terminal does with the bytes (scrolling at the bottom, margins) is not decided. One recorded known finding (K1, old API ends `lines` rows too low).",
         "technique": "affine dataflow of the cursor row over a transfer table applied to traced write expressions (polynomial normal forms over render size and padding margins), sign analysis, guard-conjunct analysis, order/dominance checks (nothing written before validation)",
     },
@@ -137,7 +137,7 @@ TABLE = {
         "text": "Ownership discipline of PIL images with few named primitives: who-may-close (only fresh objects, or through _close_image which spares the source), "
                 "must-release on every normal path of every renderer (CFG), release-before-rebind with finally for the declared-fallible steps, iterator bookkeeping "
                 "(seek position set before each render and reset at both ends of pass, image recorded/released, generators owning images never overwritten), builtin "
-                "open() always in a with, temp copy created after successful construction and removed on failed write. No use after release (typestate over the CFG); no seek request is lost between two yields of ImageIterator._animate.",
+                "open() always in a with, temp copy created after successful construction and removed on failed write. No use after release (typestate over the CFG); no seek request is lost between two yields of ImageIterator._animate. Size-dependent values are read per frame in ImageIterator._animate.",
         "note": _NOTE + " Frame equality with direct formatting, tell() under arbitrary seeks and HTTP behaviour are not decided; exceptional paths other than the declared-fallible ones rely on CPython reference counting. Two recorded known findings (K2a/K2b).",
         "technique": "ownership / must-release typestate on the CFG, freshness analysis for close sites, dominance (mkstemp after construction), call-order checks",
     },
@@ -152,7 +152,7 @@ TABLE = {
         "text": "Synchronized-update bracket (BEGIN immediately before a try whose finally writes END and flushes, all output inside), delete-before-draw through the buffered "
                 "stream, view identity includes every geometric component unpacked from the canvas view, views updated on every inspecting path (CFG), clear on "
                 "start/stop/clear with a disguise change on every path, single z-index allocator accessed via __class__ with overflow test and successor function, "
-                "frozenset kind of _ti_image_cviews, lock-decorated I/O overrides. A delete-all runs at most once per pass; shard tails are aged after the last view of each shard.",
+                "frozenset kind of _ti_image_cviews, lock-decorated I/O overrides. A delete-all runs at most once per pass; shard tails are aged after the last view of each shard. The widget's blend=False depends only on the image type and the konsole exception.",
         "note": _NOTE + " Which placements a layout history leaves on the terminal depends on shard geometry at run time - not decided.",
         "technique": "pairing (bracket) rule, must-pass-through on the CFG, key-completeness (unpacked components subset of key), who-may-write on allocator state, kind check",
     },
